@@ -56,6 +56,11 @@ Definition va_prog_step (cur op arg : Z) : res Z :=
     from_indices_4k (p4_index cur) (pti_new_truncate (trunc16 arg)) (p2_index cur) (p1_index cur)
   else if op =? 15 then
     Ok (idt_handler_addr (trunc16 arg) (trunc16 (shr64 arg 16)) (shr64 arg 32))
+  else if op =? 16 then va_add cur arg
+  else if op =? 17 then va_sub cur arg
+  else if op =? 18 then va_new arg                                    (* from_ptr *)
+  else if op =? 19 then from_indices_1g (p4_index cur) (pti_new_truncate (trunc16 arg))
+  else if op =? 20 then from_indices_2m (p4_index cur) (p3_index cur) (pti_new_truncate (trunc16 arg))
   else Ok cur.
 Definition pa_prog_step (cur op arg : Z) : res Z :=
   if op =? 0 then pa_new arg
@@ -69,6 +74,8 @@ Definition pa_prog_step (cur op arg : Z) : res Z :=
   else if op =? 8 then do p <- frame_containing S4K cur; frame_add S4K p arg
   else if op =? 9 then do p <- frame_containing S2M cur; frame_sub S2M p arg
   else if op =? 10 then pte_addr arg
+  else if op =? 11 then pa_add cur arg
+  else if op =? 12 then pa_sub cur arg
   else Ok cur.
 Fixpoint run_prog (step : Z -> Z -> Z -> res Z) (cur : Z) (l : list Z) : list Z :=
   match l with
